@@ -21,7 +21,9 @@ PROPS = {
     },
     'C02': {
         'lean': ['Netpol.Properties.C02'],
-        'families': [('list', 1500, 60000)],
+        'families': [('list', 1500, 60000), ('hist', 400, 20000), ('evalw', 100, 5000)],
+        'accept_props': ['C02', 'C15', 'C03'],
+        'shard_min': 50,
         'rule': 'as C01, worlds with AdminNetworkPolicies (distinct priorities) and an optional BaselineAdminNetworkPolicy, documents shuffled',
         'assumptions': ['World.Valid inputs; ANP priorities distinct and within 0..1000'],
     },
